@@ -21,8 +21,8 @@ CHECKS = {
          'sampled scenario pairs x plans incl. the refill-boundary sweep over every offset; logs compared modulo the byte permutation',
          'trusts: that a byte permutation fixing newline preserves the meaning of a rule set (true for the generated pattern language); read-request counts are not compared (C03)', '6 C04'),
  'C05': ('exploration', 'seeded deterministic simulation: API-history search checked against an executable reference model (integer + list)',
-         'sampled histories of begin/push/pop/top mixed with restart, buffer switches, yywrap and EOF; model compared after every event',
-         'trusts: the harness op interpreter; rule activation per condition (part B of the design) is not claimed. Back ends: C non-reentrant, C reentrant, c99, C++ lexer class; histories include yylex_destroy + reuse', '6 C05'),
+         'sampled histories of begin/push/pop/top mixed with restart, buffer switches, yywrap and EOF, model compared after every event; plus, per sampled scenario and every one of its conditions, the flattening and the scope differential on sampled inputs and read schedules',
+         'trusts: the harness op interpreter. Part A (histories, two thirds of the scenarios) uses the integer+list model; part B (rule activation, one third) is a differential against the scanner generated from only the rules the manual declares active in the condition, and against the same rules written in nested scopes. Back ends: C non-reentrant, C reentrant, c99 (part A), C++ lexer class; histories include yylex_destroy + reuse', '6 C05'),
  'C08': ('exploration', 'seeded deterministic simulation: in-action op histories x delivery schedules, checked event by event against a byte-stream reference model',
          'sampled scenarios x plans; conservation of the byte stream and the text seen by every action are checked on every run',
          'trusts: the reference matcher (disagreements that persist with no history are attributed to C01 and not reported); op scripts restricted to documented combinations (DESIGN 11.3). Back ends: C non-reentrant, C reentrant, c99, C++ lexer class', '6 C08'),
